@@ -324,27 +324,27 @@ scalar_by_big!(c10_t_srem_i16_m1_hi, true, i16, true, true, |a, s| s % a);
 scalar_by_big!(c10_t_sdiv_i16_m1_lo, true, i16, false, false, |a, s| s / a);
 scalar_by_big!(c10_t_sdivr_i16_m1_lo, true, i16, false, false, |a, s| s / &a);
 scalar_by_big!(c10_t_srem_i16_m1_lo, true, i16, true, false, |a, s| s % a);
-scalar_by_big!(c10_q_sdiv_i32_p1_hi, false, i32, false, true, |a, s| s / a);
+scalar_by_big!(c10_t_sdiv_i32_p1_hi, false, i32, false, true, |a, s| s / a);
 scalar_by_big!(c10_t_sdivr_i32_p1_hi, false, i32, false, true, |a, s| s / &a);
-scalar_by_big!(c10_q_srem_i32_p1_hi, false, i32, true, true, |a, s| s % a);
+scalar_by_big!(c10_t_srem_i32_p1_hi, false, i32, true, true, |a, s| s % a);
 scalar_by_big!(c10_t_sdiv_i32_p1_lo, false, i32, false, false, |a, s| s / a);
 scalar_by_big!(c10_t_sdivr_i32_p1_lo, false, i32, false, false, |a, s| s / &a);
 scalar_by_big!(c10_t_srem_i32_p1_lo, false, i32, true, false, |a, s| s % a);
-scalar_by_big!(c10_q_sdiv_i32_m1_hi, true, i32, false, true, |a, s| s / a);
+scalar_by_big!(c10_t_sdiv_i32_m1_hi, true, i32, false, true, |a, s| s / a);
 scalar_by_big!(c10_t_sdivr_i32_m1_hi, true, i32, false, true, |a, s| s / &a);
-scalar_by_big!(c10_q_srem_i32_m1_hi, true, i32, true, true, |a, s| s % a);
+scalar_by_big!(c10_t_srem_i32_m1_hi, true, i32, true, true, |a, s| s % a);
 scalar_by_big!(c10_t_sdiv_i32_m1_lo, true, i32, false, false, |a, s| s / a);
 scalar_by_big!(c10_t_sdivr_i32_m1_lo, true, i32, false, false, |a, s| s / &a);
 scalar_by_big!(c10_t_srem_i32_m1_lo, true, i32, true, false, |a, s| s % a);
-scalar_by_big!(c10_t_sdiv_i64_p1_hi, false, i64, false, true, |a, s| s / a);
+scalar_by_big!(c10_q_sdiv_i64_p1_hi, false, i64, false, true, |a, s| s / a);
 scalar_by_big!(c10_t_sdivr_i64_p1_hi, false, i64, false, true, |a, s| s / &a);
-scalar_by_big!(c10_t_srem_i64_p1_hi, false, i64, true, true, |a, s| s % a);
+scalar_by_big!(c10_q_srem_i64_p1_hi, false, i64, true, true, |a, s| s % a);
 scalar_by_big!(c10_t_sdiv_i64_p1_lo, false, i64, false, false, |a, s| s / a);
 scalar_by_big!(c10_t_sdivr_i64_p1_lo, false, i64, false, false, |a, s| s / &a);
 scalar_by_big!(c10_t_srem_i64_p1_lo, false, i64, true, false, |a, s| s % a);
-scalar_by_big!(c10_t_sdiv_i64_m1_hi, true, i64, false, true, |a, s| s / a);
+scalar_by_big!(c10_q_sdiv_i64_m1_hi, true, i64, false, true, |a, s| s / a);
 scalar_by_big!(c10_t_sdivr_i64_m1_hi, true, i64, false, true, |a, s| s / &a);
-scalar_by_big!(c10_t_srem_i64_m1_hi, true, i64, true, true, |a, s| s % a);
+scalar_by_big!(c10_q_srem_i64_m1_hi, true, i64, true, true, |a, s| s % a);
 scalar_by_big!(c10_t_sdiv_i64_m1_lo, true, i64, false, false, |a, s| s / a);
 scalar_by_big!(c10_t_sdivr_i64_m1_lo, true, i64, false, false, |a, s| s / &a);
 scalar_by_big!(c10_t_srem_i64_m1_lo, true, i64, true, false, |a, s| s % a);
